@@ -708,10 +708,16 @@ class RecordContextMatcher:
                         raise InvalidOperation(
                             "Generator variable '{}' overwrites existing variable!".format(gen.target.id)
                         )
-                values = recursive_generator(node.generators[::-1])
-                for val in values:
-                    result = self.eval(node.elt)
-                    yield result
+                try:
+                    values = recursive_generator(node.generators[::-1])
+                    for val in values:
+                        result = self.eval(node.elt)
+                        yield result
+                finally:
+                    # the loop variables go out of scope, so the same expression can be evaluated again
+                    # (a generator nested in another one, or two generators using the same variable name)
+                    for gen in node.generators:
+                        self.data.pop(gen.target.id, None)
 
             return generator_expr()
 
